@@ -95,6 +95,12 @@ func renderSeg(s segSpec, seq uint32) []byte {
 		return []byte("this is not an mp4 file, it only looks like one from far away")
 	case "empty":
 		return []byte{}
+	case "styponly":
+		var buf bytes.Buffer
+		if err := mp4.NewMediaSegment().Styp.Encode(&buf); err != nil {
+			panic(err)
+		}
+		return buf.Bytes()
 	}
 	seg := mp4.NewMediaSegment()
 	seg.EncOptimize = mp4.OptimizeNone
